@@ -185,8 +185,11 @@ func joinHarness(parallel bool) {
 	str := verif.Choose("strkeys", 2) == 1
 	nl := verif.Choose("left", maxRows(2, 3)+1)
 	nr := verif.Choose("right", 3)
-	if len(joinCols[cond][0]) > 1 && nl+nr > 3 && verif.Tier() == 0 {
-		verif.Assume(false) // two-column conditions: at most 3 rows in total in the quick tier
+	if len(joinCols[cond][0]) > 1 && nl+nr > 3+verif.Tier() {
+		verif.Assume(false) // two-column conditions: at most 3 rows in total (4 in the thorough tier)
+	}
+	if nl+nr > 4 {
+		verif.Assume(false) // at most 4 rows in total
 	}
 	if strat == 2 && jt != 0 {
 		verif.Assume(false) // STRAIGHT_JOIN is inner only
@@ -199,8 +202,8 @@ func joinHarness(parallel bool) {
 		verif.Opt("schedules", 1)
 		verif.Opt("race", 1)
 		verif.Opt("preempt", 1+verif.Tier())
-		if str || (cond != 0 && cond != 4 && cond != 2) || nl+nr > 3+verif.Tier() {
-			verif.Assume(false) // parallel variants: numeric keys, three condition classes, small sides
+		if str || (cond != 0 && cond != 4 && cond != 2) || nl+nr > 3 {
+			verif.Assume(false) // parallel variants: numeric keys, three condition classes, at most 3 rows in total
 		}
 	}
 	lrows, larr := joinSide(nl, joinCols[cond][0], str)
